@@ -469,7 +469,8 @@ func initRollingFileLogger(
 			return err
 		}
 	}
-	return nil
+	// Start the inner logger (an AsyncLogger needs its buffer and worker).
+	return f.logger.Start()
 }
 
 // Append forwards the event to the underlying logger.
@@ -482,8 +483,11 @@ func (f *RollingFileLogger) Write(b []byte) {
 	f.logger.Write(b)
 }
 
-// Stop stops all appenders.
+// Stop stops the inner logger (flushing an async buffer), then all appenders.
 func (f *RollingFileLogger) Stop() {
+	if f.logger != nil {
+		f.logger.Stop()
+	}
 	for _, a := range f.appenders {
 		a.Stop()
 	}
